@@ -441,6 +441,12 @@ func (env *SpecEnv) ident(name string, hint types.Type) Value {
 			}
 		}
 	}
+	// a loop that changed its form since the contracts were written (anchors.go)
+	if env.fr != nil && !env.inOld && env.fr.loops != nil {
+		if v, ok := env.changedLoopName(name); ok {
+			return v
+		}
+	}
 	// local variable of the frame
 	if env.fr != nil && !env.inOld {
 		if a := env.fr.localByName(name); a != nil {
@@ -517,12 +523,77 @@ func (env *SpecEnv) object(o types.Object, hint types.Type) Value {
 	return nil
 }
 
+func (env *SpecEnv) changedLoopName(name string) (Value, bool) {
+	fr := env.fr
+	want, nth := name, 1
+	if i := strings.Index(name, "#"); i >= 0 {
+		want = name[:i]
+		fmt.Sscanf(name[i+1:], "%d", &nth)
+	}
+	intT := types.Typ[types.Int]
+	if want == "rangeindex" {
+		for _, li := range fr.loops {
+			if !li.reanchored || li.riOrdinal != nth || rangeIndexAlloc(li) != nil {
+				continue
+			}
+			c := counterOf(fr.fn, li)
+			if c == nil {
+				return nil, false
+			}
+			cur, ok := env.st.cells[c].(Term)
+			if !ok {
+				return nil, false
+			}
+			if fr.atHead == li {
+				return Term{S: sx("-", cur.S, "1"), T: intT}, true
+			}
+			return Term{S: cur.S, T: intT}, true
+		}
+		return nil, false
+	}
+	if fr.atHead == nil || !frameReanchored(fr) {
+		return nil, false
+	}
+	a := fr.localByName(name)
+	if a == nil {
+		return nil, false
+	}
+	if li := rangeKeyLoop(fr, a); li != nil && li == fr.atHead {
+		if r, ok := env.st.cells[rangeIndexAlloc(li)].(Term); ok {
+			return Term{S: sx("+", r.S, "1"), T: intT}, true
+		}
+	}
+	return nil, false
+}
+
 func (fr *Frame) localByName(name string) *ssa.Alloc {
 	want := name
 	nth := 1
 	if i := strings.Index(name, "#"); i >= 0 {
 		want = name[:i]
 		fmt.Sscanf(name[i+1:], "%d", &nth)
+	}
+	if want == "rangeindex" {
+		// after a re-alignment of the loops (anchors.go) the k-th range index is the one of the loop recorded as k-th
+		re := false
+		for _, li := range fr.loops {
+			if li.reanchored {
+				re = true
+			}
+		}
+		if re {
+			for _, li := range fr.loops {
+				if li.riOrdinal == nth {
+					return rangeIndexAlloc(li)
+				}
+			}
+			return nil
+		}
+	}
+	if want != "rangeindex" {
+		if a, handled := anchoredLocal(fr.fn, want, nth); handled {
+			return a
+		}
 	}
 	k := 0
 	for _, b := range fr.fn.Blocks {
